@@ -18,6 +18,7 @@ case "$which" in
   case)    test=TestStandinCase;    obl="regexp2.executeDefault#bounded-standin-case";;
   replace) test=TestStandinReplace; obl="regexp2.replace#bounded-standin";;
   groups)  test=TestStandinGroups;  obl="syntax.parser#bounded-standin-groups";;
+  stack)   test=TestStandinStack;   obl="regexp2.executeDefault#bounded-standin-stack";;
   *) echo "ENGINE-ERROR unknown stand-in $which"; exit 2;;
 esac
 export STANDIN_KNOWN=$(python3 - "$HERE/known_findings.json" "$prop" "$obl" <<'PY'
@@ -66,6 +67,10 @@ if which=="mirror":
     rec={"function":"executeDefault (right-to-left arms against left-to-right arms), with the parser/reducer/writer in front of it",
      "bound":"%d patterns from an abstract syntax with a mirror operation (items = atom a b [ab] [^a] . \\w - \\d [^ab] \\W \\s [a-] 1 (?:a|-) [\\w-[a]] x quantifier none * + ? *? +? {2} {1,2} ??; 1-2 items, 3-item sequences and alternations over %s, literals before/after an item, quantified groups (also item+literal bodies), named captures (nested, alternated, looped), atomic groups, ^ $ \\A \\z \\b \\B \\G, the four lookarounds, named backreferences); options None, IgnoreCase, Multiline%s; every text over {a,b,-,1} (over {a,-,\\n} for Multiline) of length 0..%d plus 13 longer texts; every start offset; both directions of the pair"%(pats,"20 items" if lvl>=2 else "12 items",", Singleline|Multiline, IgnoreCase|Multiline, ExplicitCapture" if lvl>=2 else "",n),
      "checks":"find(mirror(P), RightToLeft, reverse(text), n-s) is the mirror image of find(P, text, s): both fail or index' = n-index-length, same length, every capture of every named group mirrored, in the same order"}
+elif which=="stack":
+    rec={"function":"executeDefault with a backtracking stack limit (the interpreter's push/pop discipline between two calls of ensureStorage, unwinding after a capped growth step)",
+     "bound":"%d patterns (%s of the mirror grammar's patterns plus 8 hand-picked backtracking-heavy ones), both directions; every text over {a,b,-} of length 0..3 plus 6 longer texts; limits 0 1 2 7 8 9 31 32 33 63 64 65 66 100 127 128 129 200 257 1000 against the unlimited run"%(pats,"all" if lvl>=2 else "every fourth"),
+     "checks":"with a limit the call returns exactly what the unlimited call returns or ErrBacktrackingStackLimit, never another error or a panic; a larger limit never turns a success into the stack-limit error; after any such call the same Regexp answers a further call like a fresh one"}
 elif which=="groups":
     rec={"function":"the parser's capture numbering (countCaptures, scanGroupOpen, noteCaptureSlot, noteCaptureName, assignNameSlots, assignOrderedNameSlots) and the tables the writer derives from it",
      "bound":"%d patterns: every sequence of 1..%d groups of the kinds unnamed, named n, named m, numbered 1, 2, 3 and 5, non-capturing, (?P<n>, and the inline switches (?n) and (?-n), flat and with the first or second group wrapping its successor, group i matching its own letter; modes default, ExplicitCapture, RE2, ECMAScript, MaintainCaptureOrder, RE2+MaintainCaptureOrder, RightToLeft, IgnoreCase+MaintainCaptureOrder"%(pats,4 if lvl>=2 else 3),
